@@ -68,6 +68,10 @@ type admSess struct {
 	gone    bool
 	refused bool
 	mates   *[]*admSess // every session created on the same RTSP command connection (shared)
+	// the lal session objects (byte counters for the server-tick ops, c03tick.go)
+	rtmpS   *rtmp.ServerSession
+	rtspPub *rtsp.PubSession
+	rtspSub *rtsp.SubSession
 }
 
 // the connection of s has ended: every session created on it is over for the harness
@@ -137,6 +141,9 @@ func (o admObs) learn(key string) {
 }
 func (o admObs) OnRtmpConnect(s *rtmp.ServerSession, opa rtmp.ObjectPairArray) {
 	o.learn(s.UniqueKey())
+	if o.c.cur != nil {
+		o.c.cur.rtmpS = s
+	}
 	o.c.sm.OnRtmpConnect(s, opa)
 }
 func (o admObs) OnNewRtmpPubSession(s *rtmp.ServerSession) error {
@@ -154,11 +161,17 @@ func (o admObs) OnNewRtspSessionConnect(s *rtsp.ServerCommandSession) {
 func (o admObs) OnDelRtspSession(s *rtsp.ServerCommandSession) { o.c.sm.OnDelRtspSession(s) }
 func (o admObs) OnNewRtspPubSession(s *rtsp.PubSession) error {
 	o.learn(s.UniqueKey())
+	if o.c.cur != nil {
+		o.c.cur.rtspPub = s
+	}
 	return o.c.sm.OnNewRtspPubSession(s)
 }
 func (o admObs) OnDelRtspPubSession(s *rtsp.PubSession) { o.c.sm.OnDelRtspPubSession(s) }
 func (o admObs) OnNewRtspSubSessionDescribe(s *rtsp.SubSession) (bool, []byte) {
 	o.learn(s.UniqueKey())
+	if o.c.cur != nil {
+		o.c.cur.rtspSub = s
+	}
 	return o.c.sm.OnNewRtspSubSessionDescribe(s)
 }
 func (o admObs) OnNewRtspSubSessionPlay(s *rtsp.SubSession) error {
@@ -294,10 +307,27 @@ func (c *admCase) cleanup() {
 	}
 	if !c.disposed {
 		c.disposed = true
-		c.sm.Dispose()
+		admGuarded(c.sm.Dispose)
 	}
 	if c.api != nil {
 		c.api.VerifClose()
+	}
+}
+
+// admGuarded runs a call into lal that a broken tree may never return from (e.g. a second
+// Group.Dispose blocks on the group's exit channel) without hanging the whole run.
+func admGuarded(f func()) bool {
+	done := make(chan struct{})
+	go func() {
+		defer func() { _ = recover(); close(done) }()
+		f()
+	}()
+	select {
+	case <-done:
+		return true
+	case <-time.After(admWaitDur()):
+		atomic.AddInt32(&admTimeouts, 1)
+		return false
 	}
 }
 
@@ -1136,7 +1166,9 @@ func (c *admCase) doOp(op string) string {
 			return "x"
 		}
 		c.disposed = true
-		c.sm.Dispose()
+		if !admGuarded(c.sm.Dispose) {
+			return "timeout"
+		}
 		return "-"
 	case "media": // media.<sid>: one audio message from that session
 		s := c.sess["c"+f[1]]
@@ -1428,9 +1460,33 @@ func admRun(a []string) string {
 	defer c.cleanup()
 	var out []string
 	for _, op := range strings.Split(a[1], ",") {
-		r := c.doOp(op)
-		c.settle()
-		out = append(out, r+"/"+c.render())
+		// under a watchdog: on a broken tree a call into the server may never return or leave the
+		// server lock held for ever (e.g. a group disposed twice blocks on its exit channel)
+		done := make(chan string, 1)
+		go func(op string) {
+			defer func() {
+				if e := recover(); e != nil {
+					done <- "panic"
+				}
+			}()
+			r := c.doOp(op)
+			c.settle()
+			done <- r + "/" + c.render()
+		}(op)
+		select {
+		case r := <-done:
+			if r == "panic" {
+				c.disposed = true
+				out = append(out, "panic/-/-")
+				return strings.Join(out, ";") + ";anomaly:panic-in-" + strings.Split(op, ".")[0]
+			}
+			out = append(out, r)
+		case <-time.After(3 * admWaitDur()):
+			atomic.AddInt32(&admTimeouts, 1)
+			c.disposed = true // no ServerManager.Dispose at cleanup
+			out = append(out, "hang/-/-")
+			return strings.Join(out, ";") + ";anomaly:op-never-returned"
+		}
 	}
 	res := strings.Join(out, ";")
 	atomic.AddInt32(&admTimeouts, int32(len(c.anomalies)))
